@@ -482,6 +482,47 @@ def check_locale(case, acc):
     acc.tag("files_written_under_a_non_utf8_locale")
 
 
+def check_tall(case, acc, exporter_classes):
+    """A trunk of `factor` x the interpreter's recursion limit with a small crown (the pinned exporters are recursive below
+    PreOrderIter and manage about 0.99 x the limit; whatever is well inside that stays exportable), with and without
+    restrictions. Node statements come in pre-order, edges fit them."""
+    import re
+    import sys
+
+    depth = int(case["factor"] * sys.getrecursionlimit())
+    chain = [Node("n0")]
+    for i in range(1, depth):
+        chain.append(Node("n%d" % i, parent=chain[-1]))
+    crown = [Node("x", parent=chain[-1]), Node("y", parent=chain[-1])]
+    twig = Node("z", parent=crown[0])
+    everything = chain + [crown[0], twig, crown[1]]  # pre-order
+    level = {id(n): i for i, n in enumerate(chain)}
+    level.update({id(crown[0]): depth, id(crown[1]): depth, id(twig): depth + 1})
+    for exporter_cls in exporter_classes:
+        for what, kwargs, keep in (
+            ("everything", {}, lambda i, n: True),
+            ("maxlevel", {"maxlevel": depth - 2}, lambda i, n: i < depth - 2),
+            ("filter_", {"filter_": lambda n: n.name not in ("n7", "x")}, lambda i, n: n.name not in ("n7", "x")),
+            ("stop and filter_", {"stop": lambda n: n.name == "x", "filter_": lambda n: n.name != "x"}, lambda i, n: n.name not in ("x", "z")),
+        ):
+            lines = list(exporter_cls(chain[0], **kwargs))
+            want = [n.name for n in everything if keep(level[id(n)], n)]
+            body = lines[1:-1] if lines and lines[-1] == "}" else lines[1:]
+            got = []
+            for line in body[: len(want)]:
+                m = re.search(r'"(\w+)"\]?;?$|label="(\w+)"', line)
+                got.append((m.group(2) or m.group(1)) if m else line)
+            if got != want:
+                first = next((i for i, (a, b) in enumerate(zip(got, want)) if a != b), min(len(got), len(want)))
+                raise Violation("tall-tree", "%s(%s) on a trunk of %d nodes: %d node statements instead of %d, first difference at %d" % (exporter_cls.__name__, what, depth, len(got), len(want), first))
+            declared = {n.name for i, n in enumerate(everything) if n.name in want}
+            expected_edges = sum(1 for n in everything if n.parent is not None and n.name in declared and n.parent.name in declared)
+            if len(body) - len(want) != expected_edges:
+                raise Violation("tall-tree", "%s(%s) on a trunk of %d nodes: %d edge statements instead of %d" % (exporter_cls.__name__, what, depth, len(body) - len(want), expected_edges))
+    acc.nontrivial(True)
+    acc.tag("tall_tree_exports")
+
+
 def check_gc(case, acc, exporter_cls=None, node_re=None, edge_re=None, closing=True):
     """A long-lived UniqueDotExporter (or MermaidExporter) while nodes it has already named are detached, dropped and garbage-collected and new
     nodes are attached: identifiers stay distinct, surviving nodes keep theirs, edges refer to declared identifiers."""
@@ -541,6 +582,8 @@ def check_gc(case, acc, exporter_cls=None, node_re=None, edge_re=None, closing=T
 def check_case(case, acc):
     if case.get("kind") == "gc":
         return check_gc(case, acc)
+    if case.get("kind") == "tall":
+        return check_tall(case, acc, [DotExporter, UniqueDotExporter])
     if case.get("kind") == "locale":
         return check_locale(case, acc)
     names = case["names"]
@@ -705,12 +748,24 @@ def _wide_cases(widths):
             yield {"shape": shape, "names": ["n%d" % i for i in range(size)], "start": 0, "stop": [], "hide": hide, "maxlevel": maxlevel, "phases": False, "exporters": ["DotExporter", "UniqueDotExporter"], "to_file": True, "cls": "Node"}
 
 
+def _round_cases(totals):
+    """Exports whose number of lines is exactly a round number (block sizes of buffered writers), written to a file."""
+    for total in totals:
+        for options in (["rankdir=LR;"], ["rankdir=LR;", "splines=true;", "nodesep=1;"]):
+            width = (total - 2 - len(options)) // 2 + 1 - 4  # header + options + n node statements + (n - 1) edges + closing brace
+            shape = [[] for _ in range(width)]
+            shape[width // 3] = [[], [[]]]
+            yield {"shape": shape, "names": ["n%d" % i for i in range(width + 4)], "start": 0, "stop": [], "hide": [], "maxlevel": None, "phases": False, "exporters": ["DotExporter", "UniqueDotExporter"], "to_file": True, "cls": "Node", "options": options}
+
+
 def plan(tier, seed):
     nshards = 16
     max_nodes = QUICK_N if tier == "quick" else THOROUGH_N
     examples = 150 if tier == "quick" else 1200
     tasks = [{"engine": "enum", "max_nodes": max_nodes, "index": i, "count": nshards * 2} for i in range(nshards * 2)]
     tasks += [{"engine": "hyp", "examples": examples, "seed": seed * 1000 + i} for i in range(nshards)]
+    tasks += [{"engine": "round", "totals": [t]} for t in ((256, 1024, 2048, 4096, 8192) if tier == "quick" else (128, 256, 512, 1000, 1024, 2048, 4096, 8192, 10000, 16384))]
+    tasks += [{"engine": "tall", "factor": f} for f in ((0.6,) if tier == "quick" else (0.3, 0.6, 0.8))]
     tasks += [{"engine": "gc"}, {"engine": "locale", "which": ["dot", "uniquedot"]}, {"engine": "fraction", "max_nodes": 4 if tier == "quick" else 5}]
     tasks += [{"engine": "wide", "widths": [w]} for w in ((300, 700, 4400) if tier == "quick" else (257, 300, 700, 1100, 2500, 4400, 9000))]
     return tasks
@@ -724,6 +779,12 @@ def run_task(task, acc):
             if exc is not None:
                 acc.add_violation(case, exc)
         return
+    if task["engine"] == "tall":
+        case = {"kind": "tall", "factor": task["factor"]}
+        exc = acc.evaluate(check_case, case, enumerated=False)
+        if exc is not None:
+            acc.add_violation(case, exc)
+        return
     if task["engine"] == "gc":
         for victims in ([0], [1, 0, 2], [2, 2, 2, 0], [3, 1, 4, 1, 0], [0, 0, 0, 0]):
             case = {"kind": "gc", "width": 5, "victims": victims}
@@ -732,8 +793,8 @@ def run_task(task, acc):
                 acc.add_violation(case, exc)
                 break
         return
-    if task["engine"] == "wide":
-        for case in _wide_cases(task["widths"]):
+    if task["engine"] in ("wide", "round"):
+        for case in (_wide_cases(task["widths"]) if task["engine"] == "wide" else _round_cases(task["totals"])):
             exc = acc.evaluate(check_case, case, enumerated=False)
             if exc is not None:
                 acc.add_violation(case, exc)
